@@ -31,6 +31,7 @@ type ipath struct {
 	Ret    []string // keys of the returned values for Exit == "return"
 	RetIn  *ssa.Return
 	Trace  string
+	Root   []*ssa.BasicBlock // the blocks of the root function on this path (loop bodies at most twice)
 }
 
 func (p ipath) String() string { return p.Trace }
@@ -99,7 +100,7 @@ func (p *Prog) ipathsD(f *ssa.Function, depth int, stack map[*ssa.Function]bool)
 	var out []ipath
 	for _, cp := range cps {
 		// partial paths being extended
-		cur := []ipath{{Rels: relSet{}, Trace: FuncName(f) + ":" + cp.String()}}
+		cur := []ipath{{Rels: relSet{}, Trace: FuncName(f) + ":" + cp.String(), Root: cp.Blocks}}
 		var binds [][2]string // call-result key -> returned key, applied to facts at the end
 		alive := true
 		// facts of this path in f's terms
@@ -144,7 +145,7 @@ func (p *Prog) ipathsD(f *ssa.Function, depth int, stack map[*ssa.Function]bool)
 									continue
 								}
 								for _, sp := range sub {
-									n := ipath{Rels: c0.Rels.clone(), Events: append([]ievent{}, c0.Events...), Trace: c0.Trace}
+									n := ipath{Rels: c0.Rels.clone(), Events: append([]ievent{}, c0.Events...), Trace: c0.Trace, Root: c0.Root}
 									for k := range sp.Rels {
 										n.Rels[renormRel(keySubst(k, psub))] = true
 									}
